@@ -198,6 +198,16 @@ fn mutate(rng: &mut Rng, c: &mut Case) {
             if !c.utxos.is_empty() { let k = rng.below(c.utxos.len() as u64) as usize; let mut d = c.utxos[k].clone(); d.2 = boundary_amount(rng); c.utxos.push(d); } }
         15 => { // outputs exceed inputs by one / equal
             if !c.outs.is_empty() { let k = rng.below(c.outs.len() as u64) as usize; c.outs[k].0 = c.outs[k].0.wrapping_add(*rng.pick(&[1i64, -1, 1000])); } }
+        17 | 18 => { // an input whose outpoint shares ONE of the two coinbase-reference fields (index 0xffffffff with a non-null
+            // hash, or the null hash with an ordinary index) — it is an ordinary outpoint; half the time it is also repeated
+            if !c.ins.is_empty() {
+                let k = rng.below(c.ins.len() as u64) as usize;
+                let (oh, oi) = (c.ins[k].0.clone(), c.ins[k].1);
+                let (nh, ni): (String, u32) = match rng.below(3) { 0 => (oh.clone(), 0xffff_ffff), 1 => ("00".into(), rng.range(0, 9) as u32), _ => (oh.clone(), 0xffff_fffe) };
+                for u in c.utxos.iter_mut() { if u.0 == oh && u.1 == oi { u.0 = nh.clone(); u.1 = ni; } }
+                for i in c.ins.iter_mut() { if i.0 == oh && i.1 == oi { i.0 = nh.clone(); i.1 = ni; } }
+                if rng.chance(1, 2) { let d = c.ins[k].clone(); let at = rng.below(c.ins.len() as u64 + 1) as usize; c.ins.insert(at, d); }
+            } }
         16 => { // both inputs of a pair spend one outpoint and the outputs take twice its value (the double-spend witness shape)
             let amt = rng.range(1, 1_000_000) as i64; c.ins = vec![("05".into(), 3, "-".into()), ("05".into(), 3, "-".into())];
             c.utxos = vec![("05".into(), 3, amt, "51".into())]; c.pregen.clear(); c.outs = vec![(2 * amt, "-".into())]; }
